@@ -349,6 +349,21 @@ ProjOf(kind, x) ==
     CASE kind = "keys" -> <<x[1], 0, x[3], 0>>
       [] kind \in {"values", "values_mut"} -> <<0, x[2], 0, x[4]>>
       [] OTHER -> x
+\* kind "zip": cyield = keys(), tail = values(), yield = iter(): all three in the same order
+H_IterZip(e) ==
+    LET s == e.s IN
+    /\ Frame(e, {})
+    /\ NoPanic(e)
+    /\ CostQuiet(e, s, 0)
+    /\ BothFull(e, s) =>
+        LET E == Cont(Pre(s)) IN
+        /\ Chk("C08", "iter_yields_each_once", e, IsEnumerationOf(e.yield, E))
+        /\ Chk("C08", "keys_and_values_same_order", e,
+               /\ Len(e.cyield) = Len(e.yield) /\ Len(e.tail) = Len(e.yield)
+               /\ \A i \in DOMAIN e.yield :
+                     /\ e.cyield[i][1] = e.yield[i][1] /\ e.cyield[i][3] = e.yield[i][3]
+                     /\ e.tail[i][2] = e.yield[i][2] /\ e.tail[i][4] = e.yield[i][4])
+
 H_Iter(e) ==
     LET s == e.s
         mut == e.kind \in {"iter_mut", "values_mut", "mut_into_iter"} /\ HasF(e, "add")
@@ -686,13 +701,17 @@ H_SAlg(e) ==
             Y == {e.yield[i][1] : i \in DOMAIN e.yield}
             once == Cardinality(Y) = Len(e.yield)
         IN
-        CASE e.kind \in {"union", "bitor"} -> Chk("C13", "union", e, once /\ Y = A \cup B)
-          [] e.kind \in {"intersection", "bitand"} -> Chk("C13", "intersection", e, once /\ Y = A \cap B)
-          [] e.kind \in {"difference", "sub"} -> Chk("C13", "difference", e, once /\ Y = A \ B)
-          [] e.kind \in {"symmetric_difference", "bitxor"} -> Chk("C13", "symmetric_difference", e, once /\ Y = SymDiffS(A, B))
-          [] e.kind = "is_subset" -> Chk("C13", "is_subset", e, (e.res.b = 1) <=> (A \subseteq B))
-          [] e.kind = "is_superset" -> Chk("C13", "is_superset", e, (e.res.b = 1) <=> (B \subseteq A))
-          [] e.kind = "is_disjoint" -> Chk("C13", "is_disjoint", e, (e.res.b = 1) <=> (A \cap B = {}))
+        /\ Chk("C13", "set_algebra_size_hints", e,
+               \A i \in DOMAIN e.hints :
+                   LET rem == Len(e.yield) - (i - 1) IN
+                   e.hints[i][1] <= rem /\ (e.hints[i][2] = -1 \/ rem <= e.hints[i][2]))
+        /\ CASE e.kind \in {"union", "bitor"} -> Chk("C13", "union", e, once /\ Y = A \cup B)
+             [] e.kind \in {"intersection", "bitand"} -> Chk("C13", "intersection", e, once /\ Y = A \cap B)
+             [] e.kind \in {"difference", "sub"} -> Chk("C13", "difference", e, once /\ Y = A \ B)
+             [] e.kind \in {"symmetric_difference", "bitxor"} -> Chk("C13", "symmetric_difference", e, once /\ Y = SymDiffS(A, B))
+             [] e.kind = "is_subset" -> Chk("C13", "is_subset", e, (e.res.b = 1) <=> (A \subseteq B))
+             [] e.kind = "is_superset" -> Chk("C13", "is_superset", e, (e.res.b = 1) <=> (B \subseteq A))
+             [] e.kind = "is_disjoint" -> Chk("C13", "is_disjoint", e, (e.res.b = 1) <=> (A \cap B = {}))
 
 
 (***************************************************************************)
@@ -859,7 +878,7 @@ Dispatch(e) ==
       [] e.op = "Drain" -> H_Drain(e)
       [] e.op = "IntoIter" -> H_IntoIter(e)
       [] e.op = "DropMap" -> H_DropMap(e)
-      [] e.op = "Iter" -> H_Iter(e)
+      [] e.op = "Iter" -> IF e.kind = "zip" THEN H_IterZip(e) ELSE H_Iter(e)
       [] e.op \in {"Extend", "FromIter"} -> H_Extend(e)
       [] e.op \in {"Clone", "CloneFrom"} -> H_Clone(e)
       [] e.op = "Eq" -> H_Eq(e)
